@@ -16,7 +16,8 @@
 (* model predicts with exactly these deviations switched on.               *)
 (* The fourth element of a VERDICT line reports drift between the exact    *)
 (* prediction of the implementation-shaped model (today's deviations on)   *)
-(* and the observation; it never changes the verdict.                      *)
+(* and the observation; it never changes the verdict.  The fifth is 1 when *)
+(* the case demanded a root __typename (vacuity accounting).               *)
 (***************************************************************************)
 EXTENDS IntrospectionModes
 
@@ -93,10 +94,10 @@ Judge(x) ==
         ELSE IF obsMeta # ServesO(today) THEN "serves"
         ELSE IF obsLog # InvokesO(x, today) THEN "invokes"
         ELSE ""
-  IN <<verdict, drift>>
+  IN <<verdict, drift, IF tnReq /\ "__typename" \in kinds THEN 1 ELSE 0>>
 
 TInit == l = 1 /\ c = [s |-> "Enabled"]
 TNext == /\ l <= Len(Cases)
-         /\ LET j == Judge(Cases[l]) IN PrintT(<<"VERDICT", Cases[l].id, j[1], j[2]>>)
+         /\ LET j == Judge(Cases[l]) IN PrintT(<<"VERDICT", Cases[l].id, j[1], j[2], j[3]>>)
          /\ l' = l + 1 /\ UNCHANGED c
 =============================================================================
